@@ -43,6 +43,40 @@ pub fn evaluate(scen: &Scenario, trace: bool) -> Eval {
         trace,
     };
     let res = run_scenario(scen, &opts);
+    if c10 && scen.repeat_check {
+        // Same scenario, same schedule, fresh threads: every op must return
+        // exactly what it returned the first time.
+        let res2 = run_scenario(scen, &opts);
+        let differ = res
+            .records
+            .iter()
+            .zip(res2.records.iter())
+            .find(|(a, b)| a.outcome != b.outcome || a.name != b.name);
+        if let Some((a, b)) = differ {
+            let v = Violation {
+                property: "C10".into(),
+                kind: "nondeterminism".into(),
+                signature: format!("nondeterminism:{}", a.name),
+                detail: format!(
+                    "the same scenario executed twice in one process gave different results: thread {} op #{} {} at width {:?} returned {} ({} bytes) the first time and {} ({} bytes) the second time",
+                    a.thread,
+                    a.index,
+                    a.name,
+                    a.width,
+                    a.outcome.class(),
+                    a.text_len,
+                    b.outcome.class(),
+                    b.text_len
+                ),
+            };
+            return Eval {
+                violation: Some(v),
+                res,
+                compared: 0,
+                discarded: false,
+            };
+        }
+    }
     if c10 {
         let v = c10::check(scen, &res);
         Eval {
